@@ -111,12 +111,16 @@ fn all_counts(ns: &[u64]) -> Vec<CountComparison> {
 }
 
 /// full atom alphabet (lists of length <= 2)
-fn full_atoms() -> Vec<A> {
+fn full_atoms(thorough: bool) -> Vec<A> {
     let mut v = vec![A::Node, A::Edge];
     v.extend(all_counts(&[0, 1, 2]).into_iter().map(A::Distance));
-    v.extend(all_counts(&[2]).into_iter().map(A::EdgeCount));
-    v.extend(all_counts(&[1]).into_iter().map(A::EdgeCountFrom));
-    v.extend(all_counts(&[1]).into_iter().map(A::EdgeCountTo));
+    // edge counts: all 6 comparisons in the thorough tier, ==, > and <= in the quick tier
+    let counts = |n: u64| -> Vec<CountComparison> {
+        if thorough { all_counts(&[n]) } else { vec![CountComparison::Equal(n), CountComparison::GreaterThan(n), CountComparison::LessThanOrEqual(n)] }
+    };
+    v.extend(counts(2).into_iter().map(A::EdgeCount));
+    v.extend(counts(1).into_iter().map(A::EdgeCountFrom));
+    v.extend(counts(1).into_iter().map(A::EdgeCountTo));
     v.extend([
         A::Ids(vec![ElemRef::Node(0)]),
         A::Ids(vec![ElemRef::Edge(1)]),
@@ -301,9 +305,16 @@ impl Walk {
     }
 }
 
-fn walks(g: &RefGraph) -> Vec<Walk> {
+/// thorough: every element is an origin; quick: every node, the oldest and the newest edge
+fn walks(g: &RefGraph, thorough: bool) -> Vec<Walk> {
     let mut v = vec![];
-    for o in g.elements() {
+    let mut origins = g.elements();
+    if !thorough && g.edges.len() > 2 {
+        origins = g.slots.clone();
+        origins.push(g.edges[0].id);
+        origins.push(g.edges[g.edges.len() - 1].id);
+    }
+    for o in origins {
         for k in KINDS {
             v.push(Walk::Kind(k, o));
         }
@@ -694,7 +705,7 @@ pub fn run(args: &Args) -> i32 {
             (n.to_string(), spec.clone(), g)
         })
         .collect();
-    let full = full_atoms();
+    let full = full_atoms(thorough);
     let core = core_atoms(thorough);
 
     // pass -1: the walks themselves, without conditions. A walk whose plain traversal is already
@@ -704,7 +715,7 @@ pub fn run(args: &Args) -> i32 {
     for (gi, (name, spec, g)) in built.iter().enumerate() {
         let (db, _) = build_memory(spec).unwrap();
         let mut ok = vec![];
-        for w in walks(g) {
+        for w in walks(g, thorough) {
             // all clauses of C14 (set, order, distances) for graph walks; the plain selection for the elements search
             let failure: Option<(String, Value)> = match w {
                 Walk::Kind(k, o) => crate::c14::check_case(&db, g, k, o).0.map(|f| (f.clause.clone(), json!({"check": "C15", "part": "lists", "graph_name": name, "graph": spec.to_json(), "graph_listing": g.listing(), "conditions_shape": "", "walk": w.name(), "query": query_json(&f.query), "clause": f.clause, "expected": f.expected, "observed": f.observed}))),
@@ -892,7 +903,7 @@ pub fn run(args: &Args) -> i32 {
     let total = searches.load(Ordering::SeqCst) + grid_cells.load(Ordering::SeqCst);
     report.set("evaluations", json!(total));
     report.set("distinct_nontrivial", json!(nontrivial.load(Ordering::SeqCst)));
-    report.set("rule", json!("grid: every (stored value, one of 9 comparisons, operand) over the value corpus (all nine types; strings and lists in 11 systematic shapes each), each through a real search; lists: every condition list of the stated shapes over the stated alphabets (each list is generated once) on 4 fixed graphs x every element as origin x bfs/dfs x from/to + elements search; one evaluation = one search on the real Db compared with the reference evaluator. distinct_nontrivial = condition lists whose reference selection is a proper non-empty subset of the reachable elements for at least one (graph, origin, search)"));
+    report.set("rule", json!("grid: every (stored value, one of 9 comparisons, operand) over the value corpus (all nine types; strings and lists in 11 systematic shapes each), each through a real search; lists: every condition list of the stated shapes over the stated alphabets (each list is generated once) on 4 fixed graphs x every element as origin (quick tier: every node, the oldest and the newest edge) x bfs/dfs x from/to + elements search; one evaluation = one search on the real Db compared with the reference evaluator. distinct_nontrivial = condition lists whose reference selection is a proper non-empty subset of the reachable elements for at least one (graph, origin, search)"));
     report.set("exhaustive", json!(true));
     report.set("grid_corpus_values", json!(values.len()));
     report.set("grid_cells_judged", json!(grid_cells.load(Ordering::SeqCst)));
